@@ -24,6 +24,7 @@
 EXTENDS Naturals, Sequences, FiniteSets, TLC
 
 CONSTANTS MaxSegs,    \* longest request path, in segments
+          FullLeadSegs, \* paths of up to this many segments are tried with 0, 1 and 2 leading slashes, longer ones with 1
           Pinned,     \* TRUE: _static as in the pinned commit
           Endpoints,  \* registered endpoints, each a tuple of path segments, e.g. <<"api","cmd","run">>
           EpGET, EpPOST, EpPUT, EpDEL   \* endpoints registered for HttpMethod.GET / POST / PUT / DEL
@@ -103,8 +104,9 @@ Walk(cur, segs) == IF segs = <<>> THEN cur ELSE Walk(Step(cur, Head(segs)), Tail
 (*                           (a)  REQUESTS                                 *)
 Alphabet == {"..", ".", "", "dir", "file", "link_in", "link_out", "%2e%2e", "etc"}
 Query    == "?q=1"
-SegSeqs  == UNION { [1..n -> Alphabet] : n \in 1..MaxSegs }
-Requests == [k : {"static"}, lead : 0..2, segs : SegSeqs, q : BOOLEAN]
+SegSeqs(lo, hi) == UNION { [1..n -> Alphabet] : n \in lo..hi }
+Requests == [k : {"static"}, lead : 0..2, segs : SegSeqs(1, FullLeadSegs), q : BOOLEAN]
+       \cup [k : {"static"}, lead : {1},  segs : SegSeqs(FullLeadSegs + 1, MaxSegs), q : BOOLEAN]
 
 (* request.uri is handed to _static undecoded and with its query string, so
    the query is part of the last file name *)
